@@ -663,9 +663,19 @@ func runGenerated(r *rng.R, idx int) *Result {
 							do(Label{K: "R", T: ri})
 						}
 						if got := obs[len(obs)-1]; got.K == "res" && len(got.IDs) > 0 && !e.hang {
-							do(Label{K: "FB", T: ri, J: j, IDs: dedupIDs(got.IDs)})
-							for rd.inop && !e.hang {
-								do(Label{K: "R", T: ri})
+							// half of the time the concurrent fetch below is the FIRST read of the documents (cold cache)
+							if !(last.K == "hook" && last.H == 33 && r.Chance(1, 2)) {
+								do(Label{K: "FB", T: ri, J: j, IDs: dedupIDs(got.IDs)})
+								for rd.inop && !e.hang {
+									do(Label{K: "R", T: ri})
+								}
+							}
+							// the fetch truly concurrent with Active.Release
+							if last.K == "hook" && last.H == 33 && !rd.inop && !e.hang && e.Enabled(Label{K: "M", T: g}) && r.Chance(2, 3) {
+								fb := Label{K: "FB", T: ri, J: j, IDs: dedupIDs(got.IDs), P: 2}
+								oa, ob := e.StepFetchDuringRelease(fb, g)
+								labels = append(labels, fb, Label{K: "M", T: g})
+								obs = append(obs, oa, ob)
 							}
 						}
 					}
